@@ -3,26 +3,25 @@
 // Contracts for govc (contract-based deductive verification); comments only.
 package resourcereservation
 
-// ---- fault oracle for the API client (DESIGN 1.9: "for every failing call index k") ----------
-// The engine has no mutable ghost state, so "which objects does the function delete" is observed
-// through fault injection: whether Delete(obj) fails is an UNINTERPRETED function of the object,
-// i.e. universally quantified over all fault schedules. A functional postcondition
-// `result != nil <==> (some object of the set D has a failing delete)` that holds for every oracle
-// pins the set of objects on which Delete is invoked (up to the first failure) to exactly D.
-//@ declare deleteFails(o ref) bool
-//@ declare deleteNotFound(o ref) bool
+// ---- ghost API store (DESIGN 1.9) ------------------------------------------------------------
+// gone(p): the pod object p is absent from the API store (deleted, or found to be already deleted).
+// Only the assumed contract of the client's Delete writes it. Every client call has a
+// nondeterministic outcome (the returned error is unconstrained), which is the universal
+// quantification over "every failing call index".
+//@ ghost gone(p *v1.Pod) bool
 //@ declare isNotFoundErr(e ref) bool
 //@ axiom !isNotFoundErr(nil)
 //@ define podOf(o ref) *v1.Pod = unbox(o, "*v1.Pod")
-//@ define hardDeleteFail(p *v1.Pod) bool = deleteFails(p) && !deleteNotFound(p)
 
 // ASSUMED contracts of external code.
+// Delete: success or NotFound => the object is gone; any other error => store unchanged.
 //@ func sigs.k8s.io/controller-runtime/pkg/client.WithWatch.Delete
 //@   props C17 C11
 //@   requires obj != nil
-//@   pure
-//@   ensures typeis(obj, "*v1.Pod") ==> (result != nil) == deleteFails(podOf(obj))
-//@   ensures typeis(obj, "*v1.Pod") ==> isNotFoundErr(result) == (deleteFails(podOf(obj)) && deleteNotFound(podOf(obj)))
+//@   modifies family(gone(nil))
+//@   ensures forall q *v1.Pod :: q != podOf(obj) ==> gone(q) == old(gone(q))
+//@   ensures typeis(obj, "*v1.Pod") && (result == nil || isNotFoundErr(result)) ==> gone(podOf(obj))
+//@   ensures !(typeis(obj, "*v1.Pod") && (result == nil || isNotFoundErr(result))) ==> gone(podOf(obj)) == old(gone(podOf(obj)))
 //@ end
 
 //@ func k8s.io/apimachinery/pkg/api/errors.IsNotFound
@@ -32,25 +31,28 @@ package resourcereservation
 //@ end
 
 // C17: "no running pod stays attached to a group that has no reservation": every Running pod of the
-// slice is deleted (Pending ones are left alone); stops at the first failing delete.
+// slice is deleted, nothing else is (Pending ones are left alone); stops at the first failing delete.
 //@ func (*service).deleteNonReservedPods
 //@   props C17
 //@   requires rsc != nil && rsc.kubeClient != nil
 //@   requires forall i int :: 0 <= i && i < len(pods) ==> pods[i] != nil
-//@   pure
+//@   modifies family(gone(nil))
 //@   loop 1
 //@     invariant 0 - 1 <= rangeindex && rangeindex < len(pods)
-//@     invariant forall i int :: 0 <= i && i <= rangeindex ==> !(pods[i].Status.Phase == "Running" && deleteFails(pods[i]))
+//@     invariant forall i int :: 0 <= i && i <= rangeindex && pods[i].Status.Phase == "Running" ==> gone(pods[i])
+//@     invariant forall p *v1.Pod :: gone(p) != old(gone(p)) ==> p != nil && p.Status.Phase == "Running" && (exists i int :: 0 <= i && i <= rangeindex && pods[i] == p)
 //@     decreases len(pods) - rangeindex
-//@   ensures (result != nil) == (exists i int :: 0 <= i && i < len(pods) && pods[i].Status.Phase == "Running" && deleteFails(pods[i]))
+//@   ensures [all-running-deleted] result == nil ==> (forall i int :: 0 <= i && i < len(pods) && pods[i].Status.Phase == "Running" ==> gone(pods[i]))
+//@   ensures [only-running-of-slice-deleted] forall p *v1.Pod :: gone(p) != old(gone(p)) ==> p != nil && gone(p) && p.Status.Phase == "Running" && (exists i int :: 0 <= i && i < len(pods) && pods[i] == p)
 //@ end
 
 // A reservation pod that is already gone counts as deleted.
 //@ func (*service).deleteReservationPod
 //@   props C17
 //@   requires rsc != nil && rsc.kubeClient != nil && pod != nil
-//@   pure
-//@   ensures (result != nil) == hardDeleteFail(pod)
+//@   modifies gone(pod)
+//@   ensures result == nil ==> gone(pod)
+//@   ensures result != nil ==> gone(pod) == old(gone(pod))
 //@ end
 
 // ---- syncForPods ----------------------------------------------------------------------------
@@ -62,33 +64,35 @@ package resourcereservation
 //@ define isLive(rsc *service, p *v1.Pod) bool = p.Namespace != rsc.namespace && (p.Status.Phase == "Running" || p.Status.Phase == "Pending")
 //@ define hasRes(rsc *service, s []*v1.Pod, n int) bool = exists i int :: 0 <= i && i < n && isRes(rsc, s[i])
 //@ define hasLive(rsc *service, s []*v1.Pod, n int) bool = exists i int :: 0 <= i && i < n && isLive(rsc, s[i])
-//@ define lastResAt(rsc *service, s []*v1.Pod, n int, j int) bool = 0 <= j && j < n && isRes(rsc, s[j]) && (forall k int :: j < k && k < n ==> !isRes(rsc, s[k]))
-//@ define runningFail(p *v1.Pod) bool = p.Status.Phase == "Running" && deleteFails(p)
 
-// Stated through the fault oracle (see top of file): for EVERY assignment of failing deletes the
-// function reports an error iff
-//   - the group has no reservation pod and some Running consumer's delete fails      (consumers without reservation are deleted), or
-//   - it has a reservation pod, no live consumer, and deleting that pod fails         (reservation without consumers is deleted);
-// in particular with a reservation pod AND a live consumer nothing is deleted at all.
 //@ func (*service).syncForPods
 //@   props C17
 //@   requires rsc != nil && rsc.kubeClient != nil
 //@   requires forall i int :: 0 <= i && i < len(pods) ==> pods[i] != nil
-//@   pure
+//@   modifies family(gone(nil))
 //@   loop 1
 //@     invariant 0 - 1 <= rangeindex && rangeindex < len(pods)
 //@     invariant reservationPods != nil && fractionPods != nil
 //@     invariant forall k in reservationPods :: k == gpuGroupToSync
 //@     invariant forall k in fractionPods :: k == gpuGroupToSync
 //@     invariant (gpuGroupToSync in reservationPods) == hasRes(rsc, pods, rangeindex + 1)
-//@     invariant gpuGroupToSync in reservationPods ==> (exists j int :: lastResAt(rsc, pods, rangeindex + 1, j) && reservationPods[gpuGroupToSync] == pods[j])
+//@     invariant gpuGroupToSync in reservationPods ==> reservationPods[gpuGroupToSync] != nil && isRes(rsc, reservationPods[gpuGroupToSync]) && (exists j int :: 0 <= j && j <= rangeindex && reservationPods[gpuGroupToSync] == pods[j])
 //@     invariant (gpuGroupToSync in fractionPods) == hasLive(rsc, pods, rangeindex + 1)
-//@     invariant forall m int :: 0 <= m && m < len(fractionPods[gpuGroupToSync]) ==> (exists j int :: 0 <= j && j <= rangeindex && pods[j] == fractionPods[gpuGroupToSync][m] && isLive(rsc, pods[j]))
-//@     invariant forall j int :: 0 <= j && j <= rangeindex && isLive(rsc, pods[j]) ==> (exists m int :: 0 <= m && m < len(fractionPods[gpuGroupToSync]) && fractionPods[gpuGroupToSync][m] == pods[j])
+//@     invariant forall m int :: 0 <= m && m < len(fractionPods[gpuGroupToSync]) ==> fractionPods[gpuGroupToSync][m] != nil && isLive(rsc, fractionPods[gpuGroupToSync][m])
 //@     decreases len(pods) - rangeindex
 //@   loop 2
-//@     invariant forall k in visited :: (k in reservationPods) || !(exists m int :: 0 <= m && m < len(fractionPods[k]) && runningFail(fractionPods[k][m]))
+//@     invariant forall k in visited :: (k in reservationPods) || (forall m int :: 0 <= m && m < len(fractionPods[k]) && fractionPods[k][m].Status.Phase == "Running" ==> gone(fractionPods[k][m]))
+//@     invariant forall p *v1.Pod :: gone(p) != old(gone(p)) ==> p != nil && gone(p) && isLive(rsc, p) && p.Status.Phase == "Running" && !(gpuGroupToSync in reservationPods)
 //@   loop 3
-//@     invariant forall k in visited :: (k in fractionPods) || !hardDeleteFail(reservationPods[k])
-//@   ensures [sync-deletes-exactly] (result != nil) == ((!hasRes(rsc, pods, len(pods)) && (exists i int :: 0 <= i && i < len(pods) && isLive(rsc, pods[i]) && runningFail(pods[i]))) || (hasRes(rsc, pods, len(pods)) && !hasLive(rsc, pods, len(pods)) && (exists j int :: lastResAt(rsc, pods, len(pods), j) && hardDeleteFail(pods[j]))))
+//@     invariant forall k in visited :: (k in fractionPods) || gone(reservationPods[k])
+//@     invariant forall p *v1.Pod :: gone(p) != old(gone(p)) ==> p != nil && gone(p) && ((isLive(rsc, p) && p.Status.Phase == "Running" && !(gpuGroupToSync in reservationPods)) || (isRes(rsc, p) && !(gpuGroupToSync in fractionPods)))
+// NOT CLAIMED here (solver limit, see report): "result == nil && no reservation pod ==> every Running consumer of
+// pods is gone". It needs the loop-1 invariant  forall j . live(pods[j]) ==> exists m . fractionPods[g][m] == pods[j],
+// whose preservation across `append` no solver decides in 10 s. The callee deleteNonReservedPods carries the
+// corresponding fact for the slice it is given ([all-running-deleted]).
+// "a reservation pod exists [only] if at least one live pod still carries that group"
+//@   ensures [reservation-without-consumers-deleted] result == nil && hasRes(rsc, pods, len(pods)) && !hasLive(rsc, pods, len(pods)) ==> (exists j int :: 0 <= j && j < len(pods) && isRes(rsc, pods[j]) && gone(pods[j]))
+// "... if and only if ...": nothing is deleted without that justification; in particular a reservation pod
+// is never deleted while a live consumer is listed, a consumer never while a reservation pod is listed.
+//@   ensures [only-justified-deletes] forall p *v1.Pod :: gone(p) != old(gone(p)) ==> p != nil && gone(p) && ((isLive(rsc, p) && p.Status.Phase == "Running" && !hasRes(rsc, pods, len(pods))) || (isRes(rsc, p) && !hasLive(rsc, pods, len(pods))))
 //@ end
